@@ -227,9 +227,9 @@ func runC05(w *core.World, r *core.Report) {
 			for _, v := range forwardVals(call) {
 				if refs := v.Referrers(); refs != nil {
 					for _, u := range *refs {
-						if bo, ok := u.(*ssa.BinOp); ok && (bo.Op == token.EQL || bo.Op == token.NEQ) {
-							if k, ok := core.ConstInt(bo.Y); ok && k == 0 {
-								failEdges = append(failEdges, core.EdgesWhere(bo, bo.Op == token.EQL)...)
+						if bo, ok := u.(*ssa.BinOp); ok {
+							if _, op, k, ok := core.CmpConst(bo); ok && k == 0 && (op == token.EQL || op == token.NEQ) {
+								failEdges = append(failEdges, core.EdgesWhere(bo, op == token.EQL)...)
 							}
 						}
 					}
